@@ -30,6 +30,9 @@ M = [
  ("ws-class-includes-newline", "C11", "microscpi/src/parser.rs", "matches!(input, 0u8..=9u8 | 11u8..=32u8)", "matches!(input, 0u8..=32u8)"),
  ("case-sensitive-child", "C11", "microscpi/src/tree.rs", "child.0.eq_ignore_ascii_case(name)", "child.0 == name"),
  ("terminator-optional", "C12", "microscpi/src/parser.rs", "        .or_else(|_| tag(b';')(input).map(|(i, _)| (i, false)))?;", "        .or_else(|_| tag(b';')(input).map(|(i, _)| (i, false))).unwrap_or((input, true));"),
+ ("is-complete-ignores-incomplete", "C08", "microscpi/src/parser.rs", "            Err(ParseError::Incomplete) => return false,\n            Err(_) => return true,", "            Err(_) => return true,"),
+ ("process-without-complete-check", "C08", "microscpi/src/interface.rs", "                if !parser::is_complete(self.root_node(), data) {", "                if false && !parser::is_complete(self.root_node(), data) {"),
+ ("is-complete-forgets-path", "C08", "microscpi/src/parser.rs", "                if let Some(call_header) = call.header {\n                    header = call_header;\n                }\n                input = rest;", "                input = rest;"),
  ("empty-unit-consumes-nothing", "C12", "microscpi/src/parser.rs", "    if _terminator.is_some() {\n        return Ok((input, None));", "    if _terminator.is_some() {\n        return Ok((&input[..0], None));"),
 ]
 REFACTORS = [
